@@ -21,3 +21,33 @@ Print Assumptions c17_inline_total.
 Theorem c17_doc_rules_total : forall doc, exists l, doc_rules doc = Ok l.
 Proof. exact CssTotal.c17_doc_rules_total. Qed.
 Print Assumptions c17_doc_rules_total.
+
+(* ---------- stylesheet parsing (Proofs/CssRoundTrip.v): round trip, and whitespace/comments at every optional position are insignificant ---------- *)
+From H2T Require Import Base Tagged Wrap Css Dom CssParse Proofs.CssTotal Proofs.CssRoundTrip.
+Theorem parse_ruleset_rt :
+  forall (p : wsp) (r : cssruleset) (rest : list chr),
+       wsp_ok p ->
+       ruleset_ok r = true ->
+       parse_ruleset (print_ruleset_ws p r ++ rest) = POk r (skip_ws (w_end p ++ rest)).
+Proof. exact CssRoundTrip.parse_ruleset_rt. Qed.
+Print Assumptions parse_ruleset_rt.
+
+Theorem parse_stylesheet_rt :
+  forall rs : list cssruleset,
+       forallb ruleset_ok rs = true -> parse_stylesheet (concat (map print_ruleset rs)) = POk rs [].
+Proof. exact CssRoundTrip.parse_stylesheet_rt. Qed.
+Print Assumptions parse_stylesheet_rt.
+
+Theorem parse_stylesheet_rt_ws :
+  forall prs : list (wsp * cssruleset),
+       sheet_ok prs -> parse_stylesheet (print_sheet_ws prs) = POk (map snd prs) [].
+Proof. exact CssRoundTrip.parse_stylesheet_rt_ws. Qed.
+Print Assumptions parse_stylesheet_rt_ws.
+
+Theorem insignificant_whitespace :
+  forall prs : list (wsp * cssruleset),
+       sheet_ok prs ->
+       parse_css_rules (print_sheet_ws prs) = parse_css_rules (concat (map print_ruleset (map snd prs))).
+Proof. exact CssRoundTrip.insignificant_whitespace. Qed.
+Print Assumptions insignificant_whitespace.
+
